@@ -27,3 +27,123 @@ register("tls_default_handshake_timeout",
          span_const("actix-tls/src/accept/mod.rs", "DEFAULT_TLS_HANDSHAKE_TIMEOUT", "tlsDefaultHandshakeTimeoutMs"))
 register("tls_default_max_conn",
          span_const("actix-tls/src/accept/mod.rs", "MAX_CONN", "tlsDefaultMaxConn"))
+
+
+# ------------------------------------------------------------------------------------------------
+# shape facts: the configuration / construction surface of the acceptor and connector factories.
+# The harness runs the rustls-0.23 and OpenSSL flavours; these facts are regenerated from the source
+# text (comments stripped) of ALL flavours, so a flavour that is not compiled into the harness still
+# breaks an obligation (`source_shape` in Props/C18.lean, Props/C19.lean) when its factory forgets a field.
+# ------------------------------------------------------------------------------------------------
+def _ws(rx):
+    return r"\s*".join(re.escape(p) for p in rx.split())
+
+
+def _has(text, pat):
+    return re.search(_ws(pat), text, re.S) is not None
+
+
+def _block(src, head_rx, what):
+    """text from the match of head_rx to the closing brace of the block it opens"""
+    m = re.search(head_rx, src)
+    if not m:
+        raise Fail("%s not found" % what)
+    i = src.index("{", m.end() - 1) if src[m.end() - 1] != "{" else m.end() - 1
+    depth = 0
+    for j in range(i, len(src)):
+        if src[j] == "{":
+            depth += 1
+        elif src[j] == "}":
+            depth -= 1
+            if depth == 0:
+                return src[m.start():j + 1]
+    raise Fail("%s: unbalanced braces" % what)
+
+
+def _lean_facts(name, facts):
+    return "def %s : List (String × Bool) := [%s]" % (name, ", ".join('("%s", %s)' % (k, "true" if v else "false") for k, v in facts))
+
+
+def _accept_shape(lean_name):
+    def f(src):
+        new = _block(src, r"pub fn new\([^)]*\)\s*->\s*Self\s*\{", "Acceptor::new")
+        seth = _block(src, r"pub fn set_handshake_timeout\([^)]*\)\s*->\s*&mut Self\s*\{", "Acceptor::set_handshake_timeout")
+        clone = _block(src, r"impl Clone for Acceptor\s*\{", "impl Clone for Acceptor")
+        newsvc = _block(src, r"fn new_service\(&self, _: \(\)\)\s*->\s*Self::Future\s*\{", "Acceptor::new_service")
+        svc = _block(src, r"impl<IO: ActixStream[^>]*>\s*Service<IO> for AcceptorService\s*\{", "impl Service for AcceptorService")
+        facts = [
+            ("new_uses_default_timeout", _has(new, "handshake_timeout : DEFAULT_TLS_HANDSHAKE_TIMEOUT ,")),
+            ("set_assigns_timeout", _has(seth, "self . handshake_timeout = handshake_timeout ;")),
+            ("clone_copies_timeout", _has(clone, "handshake_timeout : self . handshake_timeout ,")
+                and len(re.findall(r"handshake_timeout\s*:", clone)) == 1),
+            ("new_service_passes_timeout", _has(newsvc, "handshake_timeout : self . handshake_timeout ,")
+                and len(re.findall(r"handshake_timeout\s*:", newsvc)) == 1),
+            ("new_service_shares_thread_counter", _has(newsvc, "MAX_CONN_COUNTER . with ( | conns |") and _has(newsvc, "conns : conns . clone ( ) ,")),
+            ("ready_gates_on_counter", _has(svc, "if self . conns . available (")),
+            ("call_takes_guard", _has(svc, "self . conns . get ( )")),
+            ("call_arms_service_timeout", _has(svc, "sleep ( self . handshake_timeout )") or _has(svc, "let dur = self . handshake_timeout ;")),
+        ]
+        return _lean_facts(lean_name, facts), new + seth + clone + newsvc + svc
+    return f
+
+
+for _flav, _ln in [("rustls_0_20", "tlsAcceptShapeRustls020"), ("rustls_0_21", "tlsAcceptShapeRustls021"),
+                   ("rustls_0_22", "tlsAcceptShapeRustls022"), ("rustls_0_23", "tlsAcceptShapeRustls023"),
+                   ("openssl", "tlsAcceptShapeOpenssl"), ("native_tls", "tlsAcceptShapeNativeTls")]:
+    register("tls_accept_shape_" + _flav, span_custom("actix-tls/src/accept/%s.rs" % _flav, _accept_shape(_ln)))
+
+
+def _connector_shape(src):
+    svc = _block(src, r"pub fn service\(&self\)\s*->\s*ConnectorService\s*\{", "Connector::service")
+    newsvc = _block(src, r"fn new_service\(&self, _: \(\)\)\s*->\s*Self::Future\s*\{", "Connector::new_service")
+    new = _block(src, r"pub fn new\(resolver: Resolver\)\s*->\s*Self\s*\{", "Connector::new")
+    call = _block(src, r"fn call\(&self, req: ConnectInfo<R>\)\s*->\s*Self::Future\s*\{", "ConnectorService::call")
+    facts = [
+        ("new_keeps_resolver", _has(new, "Connector { resolver }")),
+        ("service_uses_configured_resolver", _has(svc, "resolver : self . resolver . service ( ) ,")),
+        ("new_service_is_service", _has(newsvc, "ok ( self . service ( ) )")),
+        ("call_resolves_first", _has(call, "fut : ConnectFut :: Resolve ( self . resolver . call ( req ) ) ,")),
+    ]
+    return _lean_facts("tlsConnectorShape", facts), new + svc + newsvc + call
+
+
+def _resolver_shape(src):
+    fac = _block(src, r"impl Resolver\s*\{", "impl Resolver")
+    newsvc = _block(src, r"fn new_service\(&self, _: \(\)\)\s*->\s*Self::Future\s*\{", "Resolver::new_service")
+    facts = [
+        ("custom_wraps_given_resolver", _has(fac, "resolver : ResolverService :: custom ( resolver ) ,")),
+        ("service_clones_configured", _has(fac, "pub fn service ( & self ) -> ResolverService { self . resolver . clone ( ) }")),
+        ("new_service_clones_configured", _has(newsvc, "ok ( self . resolver . clone ( ) )")),
+        ("service_custom_keeps_resolver", _has(src, "kind : ResolverKind :: Custom ( Rc :: new ( resolver ) ) ,")),
+    ]
+    return _lean_facts("tlsResolverShape", facts), fac + newsvc
+
+
+def _tcp_shape(src):
+    newsvc = _block(src, r"fn new_service\(&self, _: \(\)\)\s*->\s*Self::Future\s*\{", "TcpConnector::new_service")
+    facts = [("new_service_is_service", _has(newsvc, "ok ( self . service ( ) )"))]
+    return _lean_facts("tlsTcpConnectorShape", facts), newsvc
+
+
+def _tls_connector_shape(lean_name):
+    def f(src):
+        newsvc = _block(src, r"fn new_service\(&self, _: \(\)\)\s*->\s*Self::Future\s*\{", "TlsConnector::new_service")
+        facts = [
+            # the service a factory builds carries the factory's TLS configuration
+            ("new_service_passes_config", _has(newsvc, "ok ( TlsConnectorService { connector : self . connector . clone ( ) , } )")
+                or _has(newsvc, "ok ( self . clone ( ) )")),
+        ]
+        for head, nm in [(r"impl Clone for TlsConnector\s*\{", "factory_clone_copies_config"), (r"impl Clone for TlsConnectorService\s*\{", "service_clone_copies_config")]:
+            if re.search(head, src):
+                facts.append((nm, _has(_block(src, head, nm), "connector : self . connector . clone ( ) ,")))
+        return _lean_facts(lean_name, facts), newsvc
+    return f
+
+
+register("tls_connector_shape", span_custom("actix-tls/src/connect/connector.rs", _connector_shape))
+register("tls_resolver_shape", span_custom("actix-tls/src/connect/resolver.rs", _resolver_shape))
+register("tls_tcp_connector_shape", span_custom("actix-tls/src/connect/tcp.rs", _tcp_shape))
+for _flav, _ln in [("rustls_0_20", "tlsConnShapeRustls020"), ("rustls_0_21", "tlsConnShapeRustls021"),
+                   ("rustls_0_22", "tlsConnShapeRustls022"), ("rustls_0_23", "tlsConnShapeRustls023"),
+                   ("openssl", "tlsConnShapeOpenssl"), ("native_tls", "tlsConnShapeNativeTls")]:
+    register("tls_conn_shape_" + _flav, span_custom("actix-tls/src/connect/%s.rs" % _flav, _tls_connector_shape(_ln)))
